@@ -146,6 +146,10 @@ for (t, ctxs, st) in PART:
         for k in range(st, len(bs)):
             add('part_%s_%s_k%d' % (short, ctx_name(c), k), max(len(bs) + 3, 4),
                 'partial_ctx::<%s, %d, %d>([%s], %d)' % (t, len(bs), k, arr, st), d=short, kind='part', n=len(bs), s=st, sym=bs.count(None), ctx=c, k=k)
+HIST = ['if?', 'ab?c', 'a?', '1.?', 'abc?', '?', 'ifx?ab', 'a1?']
+for c in HIST:
+    bs, arr = ctx_arr(c)
+    add('hist_B1B2_%s' % ctx_name(c), max(len(bs) + 3, 4), 'history::<%d>([%s])' % (len(bs), arr), d='B1B2', kind='hist', n=len(bs), s=0, sym=bs.count(None), ctx=c)
 out.append('}')
 dst = sys.argv[1] if len(sys.argv) > 1 else 'src/harness_list.rs'
 # optional second argument: a file with harness names, one per line - only those are emitted (Kani generates one goto
